@@ -9,7 +9,8 @@ From Coq Require Import ZArith Reals List Bool.
 From Rubato.Model Require Import Num Reals Base Validate Async Resamplers.
 From Rubato.Model Require Floats Driver.
 From Rubato.Gen Require Import FastGen.
-From Rubato.Proofs Require Import MalformedP FastInR FastOutR FastCtorR.
+From Rubato.Proofs Require Import MalformedP EngineP FastInR FastOutR FastCtorR SincInR SincCtorR.
+From Rubato.Gen Require Import SincGen.
 Import ListNotations.
 Local Open Scope R_scope.
 
@@ -57,6 +58,38 @@ Theorem C03_ctor_fast_out_R : forall ratio maxrel d chunk nch s, (1 <= chunk)%Z 
   @fast_out_new CR SR ratio maxrel d chunk nch = inr (RFastOut d s) -> exists blen, fo_wf blen s /\ ratio = oratio s.
 Proof. exact fo_ctor_wf_R. Qed.
 
+(** SincFixedIn (any interpolation type whose oversampling factor supports it, any kernel, any table):
+    a valid call at constant ratio satisfies every assert of get_sinc_interpolated and every
+    bounds check, keeps the invariant; so does every history of calls and set_chunk_size. *)
+Theorem C03_sinc_in_call_safe_R : forall env (s : @astate CR SR (@SincFixedIn CR)) wi wo m,
+  si_wf env s -> a_precheck (@si_arch CR SR env) s wi wo m = Ok tt ->
+  exists (s' : @astate CR SR (@SincFixedIn CR)) (n : Z) outs,
+    pib (@si_arch CR SR env) s wi wo m = Ok (s', (sC s, n), outs) /\
+    (0 <= n <= @si_calc_needed_len CR (as_ctl s))%Z /\
+    sli s' = sli s + IZR n * / sratio s - IZR (sC s) /\
+    sC s' = sC s /\ sCmax s' = sCmax s /\ snch s' = snch s /\ sratio s' = sratio s /\ sL s' = sL s /\ snbr s' = snbr s /\
+    SincFixedIn_target_ratio (as_ctl s') = sratio s /\ sfill s' = sC s /\
+    length (as_buf s') = length (as_buf s) /\ length (as_mask s') = Z.to_nat (snch s) /\
+    all_len (sCmax s + 2 * sL s) (as_buf s') /\
+    - IZR (sL s + 1) - IZR (Flocq.Core.Raux.Zceil (/ sratio s)) <= sli s' <= -4.
+Proof. exact si_call_const_R. Qed.
+
+Theorem C03_sinc_in_run_safe_R : forall env ops (s : @astate CR SR (@SincFixedIn CR)), si_wf env s ->
+  (forall n, In (SChunk n) ops -> (0 <= n)%Z) ->
+  match si_run env s ops with
+  | Ok (s', nin, nout) => si_wf env s' /\ sratio s' = sratio s /\ (0 <= nin)%Z /\ (0 <= nout)%Z /\
+                          sli s' - sli s = IZR nout * / sratio s - IZR nin
+  | Err _ => True
+  | Panic _ | UB _ | Diverge => False
+  end.
+Proof. exact si_history_const_R. Qed.
+
+Theorem C03_ctor_sinc_in_R : forall ratio maxrel env ilen inbr chunk nch s,
+  (1 <= chunk)%Z -> (0 <= nch)%Z -> (8 <= ilen)%Z -> nbr_ok (se_type env) inbr ->
+  @sinc_in_new CR SR ratio maxrel env ilen inbr chunk nch = inr (RSincIn env s) ->
+  si_wf env s /\ ratio = sratio s /\ sL s = ilen.
+Proof. exact si_ctor_wf_R. Qed.
+
 (** the reads of the polynomial resampler are inside the buffer exactly when the window is *)
 Theorem C03_fast_window_R : forall (st : @FastFixedIn CR) d (buf : list (@snum CR SR)) (idx : R),
   (0 <= Flocq.Core.Raux.Zfloor idx - reach_lo d + 16)%Z ->
@@ -75,3 +108,6 @@ Print Assumptions C03_fast_out_call_safe_R.
 Print Assumptions C03_fast_in_run_safe_R.
 Print Assumptions C03_fast_out_run_safe_R.
 Print Assumptions C03_ctor_fast_out_R.
+Print Assumptions C03_sinc_in_call_safe_R.
+Print Assumptions C03_sinc_in_run_safe_R.
+Print Assumptions C03_ctor_sinc_in_R.
